@@ -267,8 +267,11 @@ def insert_context(wb: WorkflowBuilder, context):
 
     having context as first argument of function
     """
+    mapping = {}
     for task in wb.tasks:
         parameters = tuple(inspect.signature(task.function).parameters)
         if parameters and parameters[0] == 'context':
-            new_task = task.replace(task_input=(context, *task.task_input))
-            wb.replace_task(task, new_task)
+            mapping[task] = task.replace(task_input=(context, *task.task_input))
+    # NOTE: Relabel all at once into a new graph. Relabeling in place moves
+    # a task last among the predecessors of its successors
+    wb._g = nx.relabel_nodes(wb._g, mapping, copy=True)
